@@ -7,7 +7,14 @@ Case kinds
              make on symbolic vectors and matrices
   dense_op   DenseOperator._from_operator_repr with symbolic coefficients vs Kronecker products;
              @, +, scalar*, apply_to, expect on symbolic matrices
-NOT covered: SparseOperator (torch sparse kernels are outside the shim), sampling.
+  sparse_op  SparseOperator._from_operator_repr (1-3 terms, symbolic coefficients, QuditOps with several
+             entries per row such as {"gg": a, "gr": b}) vs the Kronecker products AND vs DenseOperator built
+             from the same representation; CSR layout; apply_to / expect of the built operator on a symbolic vector
+  sparse_alg SparseOperator +, scalar*, @, apply_to, expect, deepcopy on symbolic CSR matrices built from
+             unsorted index lists with duplicates
+The sparse layouts (COO index order / duplicates / is_coalesced flag, CSR row pointers) are those of the model
+/verif/symtorch/torch/_sparse.py.
+NOT covered: sampling.
 """
 from __future__ import annotations
 
@@ -16,7 +23,8 @@ from fractions import Fraction
 
 from .core import dagger, embed, eye, kron, mat, zeros
 
-PACKAGES = ["emu_base", "emu_sv", "emu_sv.state_vector", "emu_sv.density_matrix_state", "emu_sv.dense_operator"]
+PACKAGES = ["emu_base", "emu_sv", "emu_sv.state_vector", "emu_sv.density_matrix_state", "emu_sv.dense_operator",
+            "emu_sv.sparse_operator"]
 
 AMPS = [(1, 0), (-2, 0), (0, 1.5), (3, 4), (0.6, 0), (0, -0.8), (5, 12), (-0.28, 0.96), (3, 0), (0, 4), (-5, 0), (0, 12)]
 
@@ -147,7 +155,127 @@ def dense_op(B, case):
             ("operations returned unchanged", mat(B, [int(back is terms)]), mat(B, [1]))]
 
 
-KINDS = {"sv_amp": sv_amp, "sv_alg": sv_alg, "dense_op": dense_op}
+def _build_repr(B, case):
+    """-> (operations for the code under test, dense Kronecker-product specification); independent of the code"""
+    N = case["N"]
+    terms = []
+    spec = zeros(B, 2 ** N, 2 ** N)
+    for ti, term in enumerate(case["terms"]):
+        coeff = B.cplx(f"c{ti}")
+        tensorop = []
+        local = {}
+        for oi, (names, targets) in enumerate(term):
+            qop = {nm: B.cplx(f"o{ti}_{oi}_{nm}") for nm in names}
+            tensorop.append((qop, set(targets)) if case.get("target_sets") else (qop, list(targets)))
+            m = zeros(B, 2, 2)
+            for nm, v in qop.items():
+                m[UNITS[nm]] = m[UNITS[nm]] + v
+            for t in targets:
+                local[t] = m
+        terms.append((coeff, tensorop))
+        spec = spec + coeff * embed(B, local, N)
+    return terms, spec
+
+
+def _flag(B, ok):
+    return mat(B, [int(bool(ok))])
+
+
+def sparse_op(B, case):
+    N = case["N"]
+    n = 2 ** N
+    terms, spec = _build_repr(B, case)
+    psi = _vec(B, n, "psi")
+    with B.under_test():
+        from emu_sv.sparse_operator import SparseOperator
+        from emu_sv.dense_operator import DenseOperator
+        from emu_sv.state_vector import StateVector
+        op, back = SparseOperator._from_operator_repr(eigenstates=tuple(case["basis"]), n_qudits=N, operations=terms)
+        dop, _ = DenseOperator._from_operator_repr(eigenstates=tuple(case["basis"]), n_qudits=N, operations=terms)
+        sv = StateVector(B.tensor(psi, "complex128"), gpu=False)
+        app = op.apply_to(sv).data
+        ex = op.expect(sv)
+    got = B.arr(op.data.to_dense())                 # harness-side read-out of the stored CSR matrix
+    p = mat(B, psi)
+    Sp = spec.dot(p)
+    want_ex = sum(B.conj(x) * y for x, y in zip(psi, Sp))
+    return [("SparseOperator._from_operator_repr", got, spec),
+            ("sparse == DenseOperator from the same representation", got, B.arr(dop.data)),
+            ("layout is CSR", _flag(B, str(op.data.layout) == "torch.sparse_csr"), _flag(B, True)),
+            ("apply_to (CSR @ vector)", B.arr(app), Sp), ("expect", B.arr(ex), mat(B, want_ex)),
+            ("operations returned unchanged", _flag(B, back is terms), _flag(B, True))]
+
+
+def _pattern(n, pattern, which):
+    """storage-order list of (row, col): unsorted, with duplicates unless the pattern is 'full'"""
+    import random
+    rng = random.Random(f"c12-sparse:{n}:{pattern}:{which}")
+    if pattern == "full":
+        return [(r, c) for r in range(n) for c in range(n)]
+    if pattern == "scattered":
+        cells = [(r, c) for r in range(n) for c in range(n)]
+        pick = rng.sample(cells, min(len(cells), 2 * n))
+        pick += [pick[k] for k in range(0, len(pick), 3)]              # duplicates
+        rng.shuffle(pick)
+        return pick
+    if pattern == "edge rows":
+        e = [(r, c) for r in (n - 1, 0) for c in range(n - 1, -1, -1)]  # last row first, columns descending
+        return e + e[:: 2]
+    raise ValueError(pattern)
+
+
+def sparse_alg(B, case):
+    import copy
+    N = case["N"]
+    n = 2 ** N
+    torch = B.torch
+    ent = {w: _pattern(n, case["pattern"], w) for w in "ab"}
+    val = {w: [B.cplx(f"{w}{k}") for k in range(len(ent[w]))] for w in "ab"}
+    dense = {}
+    for w in "ab":
+        m = zeros(B, n, n)
+        for (r, c), v in zip(ent[w], val[w]):
+            m[r, c] = m[r, c] + v
+        dense[w] = m
+    psi = _vec(B, n, "psi")
+    z = B.cplx("z")
+
+    def csr(w):
+        idx = torch.tensor([[r for r, _ in ent[w]], [c for _, c in ent[w]]], dtype=torch.int64)
+        return torch.sparse_coo_tensor(idx, B.tensor(val[w], "complex128"), (n, n)).to_sparse_csr()
+    ta, tb = csr("a"), csr("b")
+    with B.under_test():
+        from emu_sv.sparse_operator import SparseOperator
+        from emu_sv.state_vector import StateVector
+        a = SparseOperator(ta, gpu=False)
+        b = SparseOperator(tb, gpu=False)
+        sv = StateVector(B.tensor(psi, "complex128"), gpu=False)
+        add = (a + b).data
+        rmul = (z * a).data
+        app = a.apply_to(sv).data
+        ex = a.expect(sv)
+        try:
+            mm = (a @ b).data
+        except NotImplementedError:
+            mm = None                               # the class declares the product unsupported
+        cp = copy.deepcopy(a)
+    A, Bm, p = dense["a"], dense["b"], mat(B, psi)
+    Ap = A.dot(p)
+    want_ex = sum(B.conj(x) * y for x, y in zip(psi, Ap))
+    checks = [("+", B.arr(add.to_dense()), A + Bm), ("scalar *", B.arr(rmul.to_dense()), z * A),
+              ("apply_to", B.arr(app), Ap), ("expect", B.arr(ex), mat(B, want_ex)),
+              ("__deepcopy__", B.arr(cp.data.to_dense()), A),
+              ("__deepcopy__ copies the matrix", _flag(B, cp.data is not a.data), _flag(B, True)),
+              ("results are CSR", _flag(B, all(str(t.layout) == "torch.sparse_csr" for t in (add, rmul, cp.data))), _flag(B, True)),
+              ("operands not modified", B.arr(a.data.to_dense()), A), ("operands not modified (b)", B.arr(b.data.to_dense()), Bm)]
+    if mm is None:
+        checks.append(("@ raises NotImplementedError (declared by the class, nothing to compare)", _flag(B, True), _flag(B, True)))
+    else:
+        checks.append(("@", B.arr(mm.to_dense()), A.dot(Bm)))
+    return checks
+
+
+KINDS = {"sv_amp": sv_amp, "sv_alg": sv_alg, "dense_op": dense_op, "sparse_op": sparse_op, "sparse_alg": sparse_alg}
 
 
 def _partitions_into_ops(N, max_ops=2):
@@ -197,4 +325,39 @@ def cases(tier, control=False, seed=0):
                 term2 = [(NAME_SETS[(ni + 2) % len(NAME_SETS)], [N - 1])]
                 out.append(dict(kind="dense_op", N=N, basis=["r", "g"], terms=[term1]))
                 out.append(dict(kind="dense_op", N=N, basis=["g", "r"], terms=[term1, term2], target_sets=bool((pi + ni) % 2)))
+    out += _sparse_cases(tier, control)
+    return out
+
+
+# operator-name sets for the sparse cases: NAME_SETS plus factors with several entries in one ROW ({"gg": a, "gr": b}
+# has two in row g, {"rg", "rr"} two in row r) -- the shape for which the COO index order of a Kronecker product is
+# not row-sorted
+SPARSE_NAME_SETS = NAME_SETS + [["gg", "gr"], ["rg", "rr"], ["gr", "gg", "rr"]]
+
+
+def _sparse_cases(tier, control):
+    out = []
+    S = SPARSE_NAME_SETS
+    sizes = [1, 2] if control else ([1, 2, 3, 4] if tier == "thorough" else [1, 2, 3])
+    for N in sizes:
+        parts = _partitions_into_ops(N)
+        for pi, part in enumerate(parts):
+            for ni, names in enumerate(S):
+                if N == 3 and tier == "quick" and (pi + ni) % 3:
+                    continue
+                if N == 4 and (pi + 2 * ni) % 7:
+                    continue
+                term1 = [(names, tg) if k == 0 else (S[(ni + 6) % len(S)], tg) for k, tg in enumerate(part)]
+                term2 = [(S[(ni + 2) % len(S)], [N - 1])]
+                term3 = [(S[(ni + 7) % len(S)], tg) for tg in part]      # same targets as term1, other factors
+                sets = bool((pi + ni) % 2)
+                out.append(dict(kind="sparse_op", N=N, basis=["r", "g"], terms=[term1], target_sets=sets))
+                out.append(dict(kind="sparse_op", N=N, basis=["g", "r"], terms=[term1, term2], target_sets=not sets))
+                if (pi + ni) % 2 == 0:
+                    out.append(dict(kind="sparse_op", N=N, basis=["r", "g"], terms=[term1, term2, term3]))
+    for N in sizes:
+        for pattern in ("full", "scattered", "edge rows"):
+            if pattern == "full" and N > 3:
+                continue
+            out.append(dict(kind="sparse_alg", N=N, pattern=pattern))
     return out
